@@ -240,10 +240,10 @@ theorem opPop_ref (cfg : Cfg) (s : State) (g : Id) (k : Int) : Ref s (opPop cfg 
     · exact Ref.of_not_error rfl
 
 theorem opDelitem_ref (cfg : Cfg) (s : State) (g : Id) (k : Int) : Ref s (opDelitem cfg s g k) := by
-  unfold opDelitem
+  unfold opDelitem finishRemove
   simp only
   split
-  · exact Ref.same (updateRecord_same cfg s g)
+  · exact Ref.same (SameTree.refl s)
   · exact Ref.of_not_error rfl
 
 theorem detach_not_error (cfg : Cfg) (s : State) (x p : Id) : (detach cfg s x p).2.isError = false := by
